@@ -72,7 +72,7 @@ def tie_angle(theta, name):
 class Model:
   """links: list of dict(parent, joints=('f',) | tuple of 'h'/'s'), plus symbolic parameters."""
 
-  def __init__(self, links, anchors_zero=False, prefix=''):
+  def __init__(self, links, anchors_zero=False, prefix='', ortho_stacks=False, left_handed=False):
     self.links = links
     self.n = len(links)
     n = self.n
@@ -96,6 +96,19 @@ class Model:
     for d, (i, k) in enumerate(self.dofs):
       if k in 'hs':
         self.axis[d] = unit_vec(prefix + 'ax%d' % d)
+    if ortho_stacks:
+      # stacked axes mutually orthogonal: columns of a rotation matrix (either handedness)
+      d = 0
+      for i, l in enumerate(links):
+        if l['joints'] == ('f',):
+          d += 6
+          continue
+        if len(l['joints']) > 1:
+          R = rotmat(unit_quat(prefix + 'fr%d' % i))
+          for k in range(len(l['joints'])):
+            col = R[:, k]
+            self.axis[d + k] = -col if (left_handed and k == 2) else col
+        d += len(l['joints'])
     # q vector
     q = []
     self.free_quat = {}
@@ -123,6 +136,17 @@ class Model:
           self.q_index[d] = qpos
           qpos += 1
           d += 1
+
+  def free_q_idx(self):
+    """Indices of q holding free-joint quaternion components (compared up to a global sign)."""
+    out, pos = set(), 0
+    for l in self.links:
+      if l['joints'] == ('f',):
+        out |= set(range(pos + 3, pos + 7))
+        pos += 7
+      else:
+        pos += len(l['joints'])
+    return out
 
   # ------------------------------------------------------------ brax system
   def brax_system(self):
